@@ -434,7 +434,7 @@ fn check_c06(table: &bs::Table, input: &[u8], tr: &Trace, rep: &mut Report, ctx:
                 let end = size.map(|n| *off + hl + n as usize);
                 if let Some(e) = end {
                     let inside = stack.iter().all(|(_, me)| me.map(|me| e <= me).unwrap_or(true));
-                    rep.clause("C06: every element lies inside the byte range of each enclosing known-size master", inside, ctx);
+                    rep.clause("C06/C13: every element lies inside the byte range of each enclosing known-size master (strict mode: an overrun is reported, never emitted)", inside, ctx);
                 }
                 if ty == TagDataType::Master { stack.push((id, end)); cursor = *off + hl; } else { cursor = end.unwrap_or(*off + hl); }
             }
@@ -743,6 +743,13 @@ fn doc_work(table: &bs::Table, d: &Vec<Node>, rep: &mut Report, thorough: bool) 
                 check_input(&table, &ub, &mut *rep, thorough, true);
                 if same { c01_caps(&ub, &uflat, "unknown-size", &mut *rep); }
                 if thorough || mask == (1 << m) - 1 { check_trunc(&table, &ub, &uflat, &mut *rep); }
+                // mixed encodings (known-size masters above / below unknown-size ones): size fields damaged so that a descendant
+                // overruns a known-size ancestor THROUGH an unknown-size master (C13/C06), and junk inside a known-size master
+                // that is nested in an unknown-size one (C14: every enclosing known-size master grows by the skipped bytes)
+                if same && mask != (1 << m) - 1 {
+                    check_mutations(&table, &ub, &mut *rep, false);
+                    check_recover(&table, &ub, &uflat, &mut *rep, thorough);
+                }
                 check_c02(&table, &ub, &t, &mut *rep);
             }
         }
